@@ -143,6 +143,10 @@ fn programs() -> Vec<P> {
         P { name: "bidirectional D next to a real output D_out", header: vec!["A", "D", "D_out", "Q"], body: vec![row(vec![l(1), Entry::Z, Entry::X, l(1)]), row(vec![l(2), l(3), l(5), Entry::X]), row(vec![Entry::Paren(bin(BinOp::Add, name("D_out"), name("D"))), Entry::Z, Entry::X, Entry::X])], sigs: vec![Sig::inp("A", 4, 0), Sig::bidir("D", 4, V::Z), Sig::out("D_out", 4), Sig::out("Q", 4)] },
         // two outputs whose names differ only in letter case
         P { name: "outputs Q and q", header: vec!["A", "Q", "q"], body: vec![row(vec![l(1), l(1), l(6)]), row(vec![l(2), Entry::X, Entry::X]), row(vec![Entry::Paren(bin(BinOp::Sub, name("q"), name("Q"))), l(1), Entry::Z])], sigs: vec![Sig::inp("A", 4, 0), Sig::out("Q", 4), Sig::out("q", 4)] },
+        // values that come back: 0 1 0 1 0 1 on A (an entry unchanged against the row before the previous one)
+        P { name: "values that return", header: vec!["A", "Q"], body: (0..6).map(|j| row(vec![l(j % 2), if j % 3 == 0 { Entry::X } else { l(1) }])).collect(), sigs: std() },
+        // the same row again and again, against a device that moves on its own
+        P { name: "one row repeated", header: vec!["A", "Q", "R"], body: vec![Stmt::Repeat(lit(3), vec![l(1), Entry::X, Entry::X]), row(vec![l(1), l(1), Entry::X]), row(vec![l(1), Entry::X, l(2)])], sigs: std() },
         P { name: "six rows", header: vec!["A", "Q"], body: (0..6).map(|j| row(vec![l(j), if j % 2 == 0 { Entry::X } else { l(1) }])).collect(), sigs: std() },
     ]
 }
@@ -206,7 +210,7 @@ fn deviations(names: &[String], all_outputs: &[String]) -> Vec<(String, Vec<Stri
 /// what it observes on a freshly loaded test (nothing may be remembered in the test).
 pub fn reuse_part(deadline: &Deadline) -> Stats {
     let progs = programs();
-    par_range("one loaded test used twice: every ordered pair of (first layout x values x driver variant | static iteration) over the 14 curated programs", progs.len() as u64, deadline, |u, st| {
+    par_range("one loaded test used twice: every ordered pair of (first layout x values x driver variant | static iteration) over the 16 curated programs", progs.len() as u64, deadline, |u, st| {
         let p = &progs[u as usize];
         let prog = Program { header: p.header.iter().map(|s| s.to_string()).collect(), body: p.body.clone() };
         let text = text(&prog);
@@ -239,7 +243,7 @@ pub fn reuse_part(deadline: &Deadline) -> Stats {
 /// programs, against a device that answers differently at every call, without and with one fault.
 pub fn api_use_part(deadline: &Deadline) -> Stats {
     let progs = programs();
-    par_range("iterator advanced with nth(1..3): 14 curated programs x 2 driver variants x {no fault, fault at call 1..6}", progs.len() as u64 * 2 * 7, deadline, |u, st| {
+    par_range("iterator advanced with nth(1..3): 16 curated programs x 2 driver variants x {no fault, fault at call 1..6}", progs.len() as u64 * 2 * 7, deadline, |u, st| {
         let p = &progs[(u / 14) as usize];
         let ov = u % 2 == 0;
         let fault_at = ((u / 2) % 7) as usize;
@@ -250,6 +254,32 @@ pub fn api_use_part(deadline: &Deadline) -> Stats {
             .map(|j| if fault_at > 0 && j == fault_at { Step::Fault(90) } else { Step::Ans(outs.iter().enumerate().map(|(i, n)| (n.clone(), V::Num(((j * (3 + 2 * i) + 1 + i) % 16) as i64))).collect()) })
             .collect();
         check_nth(st, u, &format!("program '{}', driver {} write_input, fault at call {}", p.name, if ov { "overrides" } else { "does not override" }, if fault_at > 0 { fault_at.to_string() } else { "none".into() }), &text, &p.sigs, ov, &script, 24);
+        // a driver whose error type is std::io::Error: whatever the kind of the error, it is the item
+        // of the row whose call failed, and that call is not repeated
+        if ov {
+            if let Ok(tc) = load(&text, &p.sigs, DEFAULT_BUDGET) {
+                let ans: Answer = outs.iter().map(|n| (n.clone(), value_of(n))).collect();
+                let clean = run_io_driver(&tc, &ans, usize::MAX, std::io::ErrorKind::Other, 24);
+                for kind in [std::io::ErrorKind::Interrupted, std::io::ErrorKind::WouldBlock, std::io::ErrorKind::TimedOut, std::io::ErrorKind::BrokenPipe, std::io::ErrorKind::UnexpectedEof, std::io::ErrorKind::Other] {
+                    let got = run_io_driver(&tc, &ans, fault_at, kind, 24);
+                    st.evals += 1;
+                    st.witness("driver_with_io_errors");
+                    // expected: the clean run with item number fault_at-1 replaced by the driver error (the
+                    // constructor's if fault_at = 0), everything else and the call count unchanged
+                    let mut want = clean.clone();
+                    if fault_at == 0 {
+                        want = vec![format!("constructor: driver error {kind:?}"), "calls: 1".to_string()];
+                    } else if fault_at < clean.len() - 1 && clean[fault_at - 1].starts_with("row") {
+                        want[fault_at - 1] = format!("driver error {kind:?}");
+                    }
+                    if got != want {
+                        let pos = got.iter().zip(want.iter()).position(|(a, b)| a != b).unwrap_or(got.len().min(want.len()));
+                        st.violation("io::Error of the driver is not passed on as it is", u << 8 | kind as u64, format!("program '{}':\n{text}the driver's call {fault_at} fails with io::ErrorKind::{kind:?}\nline {pos}: got {:?}, expected {:?}\nall: {got:?}", p.name, got.get(pos), want.get(pos)), || json!({"kind": "none", "text": text, "expected": want, "observed": got}));
+                        return;
+                    }
+                }
+            }
+        }
     })
 }
 
@@ -325,12 +355,12 @@ pub fn run(tier: Tier, seed: u64) -> i32 {
         id: "C13",
         tier,
         seed,
-        rule: "explicit-state BFS (stateright): 14 curated programs x every first layout (each subset of the output-capable signals, and the full set reversed) x 2 driver variants; at every call index the environment may answer normally, fail (constructor, output-reading and write-only calls), or depart from the first layout in every listed way (drop each entry, empty answer, append a foreign signal / a copy / an unsupplied output, duplicate over either neighbour, swap neighbours, substitute every other signal at every position); deviation budget 2 per history (3 for three programs in the thorough tier); the caller carries on after the error so that later rows are checked too; distinct_nontrivial = unique states".into(),
+        rule: "explicit-state BFS (stateright): 16 curated programs x every first layout (each subset of the output-capable signals, and the full set reversed) x 2 driver variants; at every call index the environment may answer normally, fail (constructor, output-reading and write-only calls), or depart from the first layout in every listed way (drop each entry, empty answer, append a foreign signal / a copy / an unsupplied output, duplicate over either neighbour, swap neighbours, substitute every other signal at every position); deviation budget 2 per history (3 for three programs in the thorough tier); the caller carries on after the error so that later rows are checked too; distinct_nontrivial = unique states".into(),
         assumptions: vec![
             "rows before the deviation are compared with the reference interpreter's fault-free run; the attribution rule is checked against the driver's own log for every returned row".into(),
             "a layout deviation in the discarded answer of a mid-clock call (driver without write_input override) is not specified by the property and is not injected".into(),
         ],
-        required_witnesses: vec!["fault_at_the_constructor_call", "fault_at_an_output_reading_call", "fault_at_a_write_only_call", "layout_deviation_at_a_checked_row", "returned_row_attribution_checked", "one_loaded_test_used_twice_with_different_drivers", "second_deviation_of_a_history", "iterator_advanced_with_nth"],
+        required_witnesses: vec!["fault_at_the_constructor_call", "fault_at_an_output_reading_call", "fault_at_a_write_only_call", "layout_deviation_at_a_checked_row", "returned_row_attribution_checked", "one_loaded_test_used_twice_with_different_drivers", "second_deviation_of_a_history", "iterator_advanced_with_nth", "driver_with_io_errors"],
         exhaustive_note: "every call index x every deviation for every case".into(),
         e1: true,
     };
